@@ -32,6 +32,36 @@ pub enum Plan {
     IfAdd { vi: usize },
     VSet { vi: usize, open: bool },
     Pause { p: bool },
+    /// one configuration update of the config campaign, built from the stored values when it is due
+    Config { vi: usize, kind: CKind, legit: bool, trader: u64 },
+    /// key-alias probe: `snd` (ice / rol) addresses the victim's position through the alias vAMM string
+    Alias { vi: usize, victim: u64, op: AOp },
+}
+
+#[derive(Clone, Copy, Debug, PartialEq)]
+pub enum CKind {
+    /// uimr and ummr in one message, relation 0..=5 to the stored values
+    Pair(u64),
+    SingleRatio,
+    PlrLf,
+    /// owner / fee pool / insurance fund re-wiring (0 owner, 1 fee pool, 2 insurance fund)
+    Rewire(u64),
+    /// undo of a re-wiring
+    Unwire(u64),
+    VRatios,
+    VTwi,
+    VCaps,
+    WlToggle,
+    /// back to the deployed values (step 0..=5)
+    Restore(u64),
+}
+#[derive(Clone, Copy, Debug, PartialEq)]
+pub enum AOp {
+    Deposit(bool),
+    Withdraw(bool),
+    Open(u64),
+    Liq,
+    Close,
 }
 
 #[derive(Clone, Copy, Debug, PartialEq)]
@@ -80,6 +110,10 @@ pub struct GenCtx {
     pub market: Option<(u64, u64)>,
     /// how many successful liquidations are still followed by the post-liquidation block script
     pub postliq_left: u32,
+    /// configuration campaign at this step
+    pub config_at: Option<u64>,
+    /// key-alias probes once alice or carol hold a position (not before this step)
+    pub alias_from: Option<u64>,
     pub pending_stats: Vec<String>,
     pub last_plan: Option<Plan>,
     pub mode: Mode,
@@ -98,7 +132,21 @@ impl GenCtx {
             _ => None,
         };
         let postliq_left = if r.chance(40, 100) { 1 } else { 0 };
-        GenCtx { plan: VecDeque::new(), scenario_at, scenario_kind, shutdown_at, market, postliq_left, pending_stats: vec![], last_plan: None, mode }
+        let config_at = if r.chance(12, 100) { Some(ntx / 2) } else { None };
+        let alias_from = if r.chance(10, 100) { Some(ntx / 3) } else { None };
+        GenCtx {
+            plan: VecDeque::new(),
+            scenario_at,
+            scenario_kind,
+            shutdown_at,
+            market,
+            postliq_left,
+            config_at,
+            alias_from,
+            pending_stats: vec![],
+            last_plan: None,
+            mode,
+        }
     }
     /// a failed preparatory step ends the campaign
     pub fn feedback(&mut self, tx: &Tx, res: &TxResult) {
@@ -299,7 +347,12 @@ fn gen_open(w: &World, r: &mut Rng, vis: &[VInfo], ps: &[PosInfo]) -> Draft {
     let imr = ec.as_ref().map(|c| c.initial_margin_ratio.u128()).unwrap_or(w.cfg.imr).max(1);
     let maxlev = d * d / imr;
     let t = pick_trader(r);
-    let vi = pick_vamm(r, vis);
+    // now and then the market whose decimals differ from the engine's
+    let mismatched = vis.iter().find(|v| w.cfg.vamms.get(v.idx).map(|i| i.dp != w.cfg.dp).unwrap_or(false));
+    let vi = match mismatched {
+        Some(v) if r.chance(5, 100) => Some(v),
+        _ => pick_vamm(r, vis),
+    };
     let vid = vi.map(|v| v.id).unwrap_or(0);
     let pos = ps.iter().find(|p| p.v == vid && p.t == t);
     let q = vi.map(|v| v.q).unwrap_or(1000 * d);
@@ -750,7 +803,297 @@ fn realize(w: &World, r: &mut Rng, g: &mut GenCtx, plan: &Plan, vis: &[VInfo], p
             Some(draft(w.vamm_owner(&v.addr), Msg::VSetOpen { v: v.id, uopen: *open as u64 }))
         }
         Plan::Pause { p } => Some(draft(w.pauser(), Msg::Pause { p: *p as u64 })),
+        Plan::Config { vi, kind, legit, trader } => {
+            let v = vis.iter().find(|x| x.idx == *vi)?;
+            Some(config_msg(w, r, v, *kind, *legit, *trader))
+        }
+        Plan::Alias { vi, victim, op } => {
+            let v = vis.iter().find(|x| x.idx == *vi)?;
+            let p = ps.iter().find(|p| p.v == v.id && p.t == *victim)?;
+            let (snd, alias) = if *victim == 101 { (ICE, v.id + ALIAS_AL) } else { (ROL, v.id + ALIAS_CA) };
+            let mut dr = match op {
+                AOp::Deposit(big) => {
+                    let amt = if *big { p.margin.max(1) } else { d };
+                    let mut dr = draft(snd, Msg::Deposit { v: alias, amt });
+                    dr.funds = amt;
+                    dr
+                }
+                AOp::Withdraw(big) => draft(snd, Msg::Withdraw { v: alias, amt: if *big { p.margin.max(1) } else { 1 } }),
+                AOp::Open(side) => {
+                    let lev = (2 * d).min(maxlev);
+                    let margin = (p.margin / 4).max(d);
+                    let mut dr = draft(snd, Msg::Open { v: alias, side: *side, margin, lev, lim: 0 });
+                    dr.funds = open_funds(w, Some(v), None, *side, margin, lev);
+                    dr
+                }
+                AOp::Liq => draft(snd, Msg::Liq { v: alias, trader: snd, lim: 0 }),
+                AOp::Close => draft(snd, Msg::Close { v: alias, lim: 0 }),
+            };
+            if !w.cfg.native {
+                dr.funds = 0;
+            }
+            Some(dr)
+        }
     }
+}
+
+/// One configuration update built around the validation logic of `update_config` (engine and vAMM).
+fn config_msg(w: &World, r: &mut Rng, v: &VInfo, kind: CKind, legit: bool, trader: u64) -> Draft {
+    let d = w.cfg.d;
+    let ec = w.engine_config();
+    let (imr, mmr) = ec
+        .as_ref()
+        .map(|c| (c.initial_margin_ratio.u128(), c.maintenance_margin_ratio.u128()))
+        .unwrap_or((w.cfg.imr, w.cfg.mmr));
+    let eowner = ec.as_ref().map(|c| w.id(c.owner.as_str())).unwrap_or(OWNER);
+    let who = |r: &mut Rng, rightful: u64| if legit { rightful } else { any_sender(r) };
+    let edge = |r: &mut Rng| -> u128 {
+        match r.below(6) {
+            0 => 0,
+            1 => d,
+            2 => d + 1,
+            3 => d / 10,
+            _ => r.below128(d / 2 + 1),
+        }
+    };
+    let ecfg = |uimr: Option<u128>, ummr: Option<u128>, uplr: Option<u128>, ulf: Option<u128>| Msg::ECfg {
+        uowner: None,
+        uifd: None,
+        ufp: None,
+        uimr,
+        ummr,
+        uplr,
+        ulf,
+    };
+    let vcfg0 = |v: u64| Msg::VCfg { v, ucap: None, uoic: None, utoll: None, uspread: None, ufluct: None, ueng: None, uifd: None, ufeed: None, utwi: None };
+    let init = w.cfg.vamms.get(v.idx).cloned();
+    match kind {
+        CKind::Pair(rel) => {
+            let (ni, nm) = match rel {
+                // new mmr > new imr
+                0 => {
+                    let ni = r.below128(d / 2 + 1);
+                    (ni, ni + 1 + r.below128(d / 10 + 1))
+                }
+                // new pair consistent, but the new imr is below the stored mmr
+                1 => {
+                    let ni = mmr.saturating_sub(1 + r.below128(mmr / 2 + 1));
+                    (ni, r.below128(ni + 1))
+                }
+                // new pair consistent, but the new mmr is above the stored imr
+                2 => {
+                    let nm = (imr + 1 + r.below128(d / 10 + 1)).min(d);
+                    (nm + r.below128(d - nm + 1), nm)
+                }
+                3 => {
+                    let x = edge(r);
+                    (x, x)
+                }
+                // both raised
+                4 => {
+                    let ni = (imr + r.below128(d / 10 + 1) + 1).min(d);
+                    (ni, (mmr + r.below128(d / 20 + 1) + 1).min(ni))
+                }
+                // both lowered
+                _ => {
+                    let nm = mmr.saturating_sub(r.below128(mmr / 2 + 1) + 1);
+                    (imr.saturating_sub(r.below128(imr / 2 + 1) + 1).max(nm), nm)
+                }
+            };
+            draft(who(r, eowner), ecfg(Some(ni), Some(nm), None, None))
+        }
+        CKind::SingleRatio => {
+            let x = edge(r);
+            let m = match r.below(4) {
+                0 | 1 => ecfg(Some(x), None, None, None),
+                _ => ecfg(None, Some(x), None, None),
+            };
+            draft(who(r, eowner), m)
+        }
+        CKind::PlrLf => {
+            let x = *r.pick(&[0, d / 4, d, d + 1]);
+            let y = *r.pick(&[0, d / 4, d, d + 1, d / 40]);
+            let m = match r.below(3) {
+                0 => ecfg(None, None, Some(x), None),
+                1 => ecfg(None, None, None, Some(y)),
+                _ => ecfg(None, None, Some(x), Some(y)),
+            };
+            draft(who(r, eowner), m)
+        }
+        CKind::Rewire(what) => {
+            let mut m = Msg::ECfg { uowner: None, uifd: None, ufp: None, uimr: None, ummr: None, uplr: None, ulf: None };
+            if let Msg::ECfg { uowner, uifd, ufp, .. } = &mut m {
+                match what {
+                    0 => *uowner = Some(NEWOWNER),
+                    1 => *ufp = Some(NEWOWNER),
+                    _ => *uifd = Some(STRANGER),
+                }
+            }
+            draft(who(r, eowner), m)
+        }
+        CKind::Unwire(what) => {
+            let mut m = Msg::ECfg { uowner: None, uifd: None, ufp: None, uimr: None, ummr: None, uplr: None, ulf: None };
+            if let Msg::ECfg { uowner, uifd, ufp, .. } = &mut m {
+                match what {
+                    0 => *uowner = Some(OWNER),
+                    1 => *ufp = Some(FEEPOOL),
+                    _ => *uifd = Some(IFUND),
+                }
+            }
+            draft(eowner, m)
+        }
+        CKind::VRatios => {
+            let own = w.vamm_owner(&v.addr);
+            let mut m = vcfg0(v.id);
+            if let Msg::VCfg { utoll, uspread, ufluct, .. } = &mut m {
+                let val = |r: &mut Rng| Some(*r.pick(&[0, d, d + 1, d / 100]));
+                match r.below(6) {
+                    0 => *utoll = val(r),
+                    1 => *uspread = val(r),
+                    2 => *ufluct = val(r),
+                    3 => {
+                        *utoll = val(r);
+                        *uspread = val(r);
+                    }
+                    4 => {
+                        *uspread = val(r);
+                        *ufluct = val(r);
+                    }
+                    _ => {
+                        *utoll = val(r);
+                        *uspread = val(r);
+                        *ufluct = val(r);
+                    }
+                }
+            }
+            draft(who(r, own), m)
+        }
+        CKind::VTwi => {
+            let own = w.vamm_owner(&v.addr);
+            let mut m = vcfg0(v.id);
+            if let Msg::VCfg { utwi, utoll, .. } = &mut m {
+                *utwi = Some(*r.pick(&[59u64, 60, 604800, 604801]));
+                if r.chance(1, 3) {
+                    *utoll = Some(*r.pick(&[0, d, d + 1]));
+                }
+            }
+            draft(who(r, own), m)
+        }
+        CKind::VCaps => {
+            let own = w.vamm_owner(&v.addr);
+            let mut m = vcfg0(v.id);
+            if let Msg::VCfg { ucap, uoic, .. } = &mut m {
+                let cap = if r.chance(1, 3) { 0 } else { r.range(1, 50) as u128 * d };
+                let oic = if r.chance(1, 3) { 0 } else { r.range(100, 2000) as u128 * d };
+                match r.below(3) {
+                    0 => *ucap = Some(cap),
+                    1 => *uoic = Some(oic),
+                    _ => {
+                        *ucap = Some(cap);
+                        *uoic = Some(oic);
+                    }
+                }
+            }
+            draft(who(r, own), m)
+        }
+        CKind::WlToggle => {
+            let wl: Vec<u64> = w
+                .q::<cw_controllers::HooksResponse, _>(&w.engine, &margined_perp::margined_engine::QueryMsg::GetWhitelist {})
+                .map(|h| h.hooks.iter().map(|x| w.id(x)).collect())
+                .unwrap_or_default();
+            let msg = if wl.contains(&trader) { Msg::WlRm { a: trader } } else { Msg::WlAdd { a: trader } };
+            draft(who(r, w.pauser()), msg)
+        }
+        CKind::Restore(step) => match step {
+            0 | 2 => draft(eowner, ecfg(None, Some(w.cfg.mmr), None, None)),
+            1 => draft(eowner, ecfg(Some(w.cfg.imr), None, None, None)),
+            3 => draft(eowner, ecfg(None, None, Some(w.cfg.plr), Some(w.cfg.lf))),
+            _ => {
+                let own = w.vamm_owner(&v.addr);
+                let mut m = vcfg0(v.id);
+                if let (Msg::VCfg { ucap, uoic, utoll, uspread, ufluct, utwi, .. }, Some(i)) = (&mut m, init) {
+                    *ucap = Some(i.cap);
+                    *uoic = Some(i.oic);
+                    *utoll = Some(i.toll);
+                    *uspread = Some(i.spread);
+                    *ufluct = Some(i.fluct);
+                    *utwi = Some(3600);
+                }
+                draft(own, m)
+            }
+        },
+    }
+}
+
+/// configuration burst: 8–15 updates interleaved with opens of one trader, then back to the deployed values
+fn start_config(w: &World, r: &mut Rng, g: &mut GenCtx, vis: &[VInfo], ps: &[PosInfo]) -> bool {
+    let usable: Vec<&VInfo> = vis.iter().filter(|v| v.usable()).collect();
+    let v = if usable.is_empty() {
+        match vis.first() {
+            Some(v) => v,
+            None => return false,
+        }
+    } else {
+        usable[r.below(usable.len() as u64) as usize]
+    };
+    let vi = v.idx;
+    // the trading trader: a holder on this vAMM if there is one
+    let holders: Vec<u64> = ps.iter().filter(|p| p.v == v.id && TRADERS.contains(&p.t)).map(|p| p.t).collect();
+    let trader = if holders.is_empty() { *r.pick(&TRADERS) } else { holders[r.below(holders.len() as u64) as usize] };
+    let n = r.range(8, 15);
+    let mut unwire: Vec<(u64, CKind)> = vec![]; // (due after this many further updates, kind)
+    let _ = w;
+    for _ in 0..n {
+        let legit = r.chance(85, 100);
+        let kind = match r.below(100) {
+            0..=29 => CKind::Pair(r.below(6)),
+            30..=41 => CKind::SingleRatio,
+            42..=51 => CKind::PlrLf,
+            52..=56 => CKind::Rewire(r.below(3)),
+            57..=68 => CKind::VRatios,
+            69..=76 => CKind::VTwi,
+            77..=89 => CKind::VCaps,
+            _ => CKind::WlToggle,
+        };
+        g.plan.push_back(Plan::Config { vi, kind, legit, trader });
+        if matches!(kind, CKind::VCaps | CKind::WlToggle) || r.chance(1, 5) {
+            g.plan.push_back(Plan::TraderOp { vi, who: Who::Id(trader), op: TOp::OpenSame, block: Blk::Free });
+        }
+        for u in unwire.iter_mut() {
+            u.0 = u.0.saturating_sub(1);
+        }
+        while let Some(pos) = unwire.iter().position(|u| u.0 == 0) {
+            let (_, k) = unwire.remove(pos);
+            g.plan.push_back(Plan::Config { vi, kind: k, legit: true, trader });
+        }
+        if let CKind::Rewire(what) = kind {
+            unwire.push((2, CKind::Unwire(what)));
+        }
+    }
+    for (_, k) in unwire {
+        g.plan.push_back(Plan::Config { vi, kind: k, legit: true, trader });
+    }
+    for step in 0..5 {
+        g.plan.push_back(Plan::Config { vi, kind: CKind::Restore(step), legit: true, trader });
+    }
+    true
+}
+
+/// key-alias probes against a position of alice (through `ice`) or carol (through `rol`)
+fn start_alias(r: &mut Rng, g: &mut GenCtx, vis: &[VInfo], ps: &[PosInfo]) -> bool {
+    let victims: Vec<&PosInfo> = ps.iter().filter(|p| (p.t == 101 || p.t == 103) && p.v >= VAMM0 && p.v < VAMM0 + 3).collect();
+    if victims.is_empty() {
+        return false;
+    }
+    let p = victims[r.below(victims.len() as u64) as usize];
+    let vi = match vis.iter().find(|v| v.id == p.v) {
+        Some(v) => v.idx,
+        None => return false,
+    };
+    for op in [AOp::Deposit(false), AOp::Deposit(true), AOp::Withdraw(false), AOp::Withdraw(true), AOp::Open(0), AOp::Open(1), AOp::Liq, AOp::Close] {
+        g.plan.push_back(Plan::Alias { vi, victim: p.t, op });
+    }
+    true
 }
 
 /// Market-state campaigns on a vAMM with live positions: 1 = deregistered, 2 = closed, 3 = paused engine.
@@ -1165,8 +1508,10 @@ fn gen_repair(w: &World, r: &mut Rng, vis: &[VInfo]) -> Option<Draft> {
         if !v.open && r.chance(1, 3) {
             return Some(draft(w.vamm_owner(&v.addr), Msg::VSetOpen { v: v.id, uopen: 1 }));
         }
-        if !v.registered && r.chance(1, 4) {
-            return Some(draft(w.if_owner(), Msg::IfAdd { v: v.id }));
+        let mismatched = w.cfg.vamms.get(v.idx).map(|i| i.dp != w.cfg.dp).unwrap_or(false);
+        if !v.registered && r.chance(1, if mismatched { 8 } else { 4 }) {
+            let snd = if r.chance(1, 5) { STRANGER } else { w.if_owner() };
+            return Some(draft(snd, Msg::IfAdd { v: v.id }));
         }
     }
     None
@@ -1203,6 +1548,19 @@ pub fn gen_step(w: &World, r: &mut Rng, g: &mut GenCtx, k: u64, stats: &mut Stat
             stats.count("campaign", &format!("{}{}", name, if started { "" } else { "_not_applicable" }));
         }
     }
+    if let Some(at) = g.config_at {
+        if k >= at && g.plan.is_empty() {
+            g.config_at = None;
+            let started = start_config(w, r, g, &vis, &ps);
+            stats.count("campaign", if started { "config" } else { "config_not_applicable" });
+        }
+    }
+    if let Some(at) = g.alias_from {
+        if k >= at && g.plan.is_empty() && start_alias(r, g, &vis, &ps) {
+            g.alias_from = None;
+            stats.count("campaign", "key_alias");
+        }
+    }
     if let Some(at) = g.scenario_at {
         if k >= at && g.plan.is_empty() {
             g.scenario_at = None;
@@ -1233,6 +1591,8 @@ pub fn gen_step(w: &World, r: &mut Rng, g: &mut GenCtx, k: u64, stats: &mut Stat
                 Plan::IfAdd { .. } => "ifadd",
                 Plan::VSet { .. } => "vset",
                 Plan::Pause { .. } => "pause",
+                Plan::Config { .. } => "config",
+                Plan::Alias { .. } => "alias",
             });
             g.last_plan = Some(pl);
             dr = Some(d);
@@ -1303,7 +1663,24 @@ pub fn gen_step(w: &World, r: &mut Rng, g: &mut GenCtx, k: u64, stats: &mut Stat
                 }
                 65..=70 => gen_payfunding(w, r, &vis, now + dt),
                 71..=76 => gen_oracle(w, r, &vis, now + dt),
-                77..=86 => gen_admin(w, r, &vis, g.mode),
+                77..=86 => {
+                    if r.chance(1, 4) && !vis.is_empty() {
+                        // a little more weight on engine / vAMM configuration updates
+                        let v = &vis[r.below(vis.len() as u64) as usize];
+                        let kind = match r.below(8) {
+                            0 | 1 => CKind::Pair(r.below(6)),
+                            2 => CKind::SingleRatio,
+                            3 => CKind::PlrLf,
+                            4 | 5 => CKind::VRatios,
+                            6 => CKind::VTwi,
+                            _ => CKind::VCaps,
+                        };
+                        let legit = r.chance(75, 100);
+                        config_msg(w, r, v, kind, legit, 101)
+                    } else {
+                        gen_admin(w, r, &vis, g.mode)
+                    }
+                }
                 87..=89 => gen_house(w, r),
                 90..=91 => gen_direct(w, r, &vis),
                 _ => gen_open(w, r, &vis, &ps),
